@@ -139,15 +139,16 @@ class Ctx:
         if bad:
             self.broken.append(("source-audit", "; ".join(bad[:20])))
         # axioms audit of every theorem in the property file
-        path = os.path.join(LEAN, *module.split(".")) + ".lean"
-        thms = theorem_names(path)
+        thms = []
+        for mod in [module, *[m for m in extra_modules if ".Props." in m]]:
+            thms += theorem_names(os.path.join(LEAN, *mod.split(".")) + ".lean")
         if not ok:
             for t in thms:
                 self.obligations.append((t, False, ["<module does not build>"]))
             return
         audit = os.path.join(BUILD, f"audit-{self.prop}-{os.getpid()}.lean")
         with open(audit, "w") as f:
-            f.write(f"import {module}\n" + "".join(f"#print axioms {t}\n" for t in thms))
+            f.write("".join(f"import {m}\n" for m in [module, *extra_modules]) + "".join(f"#print axioms {t}\n" for t in thms))
         r = run(["lake", "env", "lean", audit], cwd=LEAN)
         os.unlink(audit)
         ax = parse_axioms(r.stdout)
@@ -206,8 +207,17 @@ class Ctx:
             self.broken.append((f"driver {label} exited {dp.returncode}", out[-2000:]))
         if diffs:
             self.broken.append((f"correspondence {label}: {len(diffs)} disagreement(s) model vs implementation", "\n".join(diffs[:25])))
+        foreign = 0
         for o in oracle:
-            self.failing.append({"stage": label, "what": o, "cmd": " ".join(harness_cmd), "seed": self.seed})
+            # an ORACLE line names the property whose statement fails on the implementation; other properties' lines
+            # (pipelines are shared between checks) are counted but belong to that property's own check
+            tag = o.split()[1] if len(o.split()) > 1 else ""
+            if tag == self.prop or tag in getattr(self, "also_props", ()):
+                self.failing.append({"stage": label, "what": o, "cmd": " ".join(harness_cmd), "seed": self.seed})
+            else:
+                foreign += 1
+        if foreign:
+            self.cov.setdefault("oracle_lines_of_other_properties", {})[label] = foreign
         self.cov["evaluations"] += int(summary.get("checks", 0))
         self.cov["input_distribution"][label] = summary
         self.cov.setdefault("stage_wall_s", {})[label] = round(time.time() - t, 2)
